@@ -38,6 +38,29 @@ class PathProxy(object):
         return r
 
 
+class _FailingFile(object):
+    """A file whose write fails with ENOSPC after half of the data (the disk
+    filled up while the generated C source was being written)."""
+
+    def __init__(self, f):
+        self._f = f
+
+    def __getattr__(self, name):
+        return getattr(self._f, name)
+
+    def write(self, data):
+        self._f.write(data[:len(data) // 2])
+        self._f.flush()
+        raise OSError(28, "No space left on device (simulated)")
+
+    def __enter__(self):
+        return self
+
+    def __exit__(self, *exc):
+        self._f.close()
+        return False
+
+
 class OsProxy(object):
     """Stands in for the os module inside kerneldll."""
 
@@ -50,6 +73,12 @@ class OsProxy(object):
 
     def getpid(self):
         return self._w.sim_pid()
+
+    def fdopen(self, fd, *a, **kw):
+        f = _real_os.fdopen(fd, *a, **kw)
+        if self._w.io_fault("enospc_source_write"):
+            return _FailingFile(f)
+        return f
 
     def unlink(self, path, *a, **kw):
         r = _real_os.unlink(path, *a, **kw)
@@ -106,12 +135,16 @@ class TempfileProxy(object):
     def mkstemp(self, suffix=None, prefix=None, dir=None, text=False):
         if dir is None:
             dir = self._w.tmp_dir
+        elif self._w.io_fault("enospc_mkdtemp"):
+            raise OSError(28, "No space left on device (simulated)")
         fd, name = _real_tempfile.mkstemp(suffix=suffix, prefix=prefix,
                                           dir=dir, text=text)
         self._w.on_fileop("mkstemp", name)
         return fd, name
 
     def mkdtemp(self, suffix=None, prefix=None, dir=None):
+        if self._w.io_fault("enospc_mkdtemp"):
+            raise OSError(28, "No space left on device (simulated)")
         if dir is None:
             dir = self._w.tmp_dir
         name = _real_tempfile.mkdtemp(suffix=suffix, prefix=prefix, dir=dir)
